@@ -18,6 +18,7 @@ INVARIANT CounterAhead
 INVARIANT CtorIdsUnique
 INVARIANT KindsApart
 PROPERTY VecSharedOnlyBySync
+PROPERTY FeatSharedOnlyBySync
 PROPERTY JsonIsolates
 CHECK_DEADLOCK FALSE
 """
@@ -65,7 +66,7 @@ class Life(Part):
                     ops.append({"op": "new", "i": 0, "j": 0, "x": rng.randrange(10), "cls": rng.choice(["base", "nsga"])})
                     n += 1
                     continue
-                op = rng.choice(["copy", "copynsga", "tofrom", "tofromjson", "sync", "setvec", "setcost", "setsigned", "setvec", "setcost"])
+                op = rng.choice(["copy", "copynsga", "tofrom", "tofromjson", "sync", "setvec", "setcost", "setsigned", "setvec", "setcost", "setfeat", "setfeat"])
                 i = rng.randint(1, n)
                 j = rng.randint(1, n)
                 if op == "sync" and i == j:
@@ -92,17 +93,22 @@ class Life(Part):
                 tokens[id(lst)] = len(keep)
             return tokens[id(lst)]
 
+        def content(lst):
+            if isinstance(lst, dict):
+                return [int(lst["k"])] if "k" in lst else []
+            return [int(v) if float(v) == int(v) else -999 for v in lst]
+
         def cls_of(o):
             return "nsga" if type(o) is IndividualNSGAII else ("base" if type(o) is Individual else type(o).__name__)
 
         def snapshot(op, exc=""):
             recs = []
             for o in objs:
-                recs.append({"id": int(o.id) - base, "vec": tok(o.vector), "costs": tok(o.costs), "signed": tok(o.costs_signed),
+                recs.append({"id": int(o.id) - base, "vec": tok(o.vector), "costs": tok(o.costs), "signed": tok(o.costs_signed), "feat": tok(o.features),
                              "cls": cls_of(o), "pop": int(o.population_id), "state": o.state.name if isinstance(o.state, Enum) else str(o.state)})
             ev = dict(op)
             ev.update({"ev": "op", "exc": exc, "counter": Individual.counter - base, "objs": recs,
-                       "lists": [[int(v) if float(v) == int(v) else -999 for v in lst] for lst in keep]})
+                       "lists": [content(lst) for lst in keep]})
             trace.append(ev)
 
         for op in case["ops"]:
@@ -129,6 +135,8 @@ class Life(Part):
                     objs[i - 1].costs.append(float(x))
                 elif name == "setsigned":
                     objs[i - 1].costs_signed.append(float(x))
+                elif name == "setfeat":
+                    objs[i - 1].features["k"] = x
             if name in ("setcost", "setsigned"):
                 lst = objs[i - 1].costs if name == "setcost" else objs[i - 1].costs_signed
                 if len(lst) >= 2:
@@ -141,7 +149,7 @@ class Life(Part):
 
     def nontrivial(self, case, trace):
         last = trace[-1]["objs"]
-        lists = [o[k] for o in last for k in ("vec", "costs", "signed")]
+        lists = [o[k] for o in last for k in ("vec", "costs", "signed", "feat")]
         return len(set(lists)) < len(lists)          # some list is shared at the end
 
     def key(self, case, trace, fail):
